@@ -226,4 +226,68 @@ def copies_of(defs, name, depth=4):
     return out
 
 
+def element_source(fn, name, defs=None):
+    """If ``name`` is bound (only) as a for-loop variable — possibly inside a nested tuple target, possibly
+    through enumerate()/reversed()/list()/tuple()/sorted() — the expression whose elements it ranges over, else None."""
+    defs = defs if defs is not None else df.all_defs(fn)
+    ds = defs.get(name, [])
+    if len(ds) != 1 or not isinstance(ds[0].stmt, (ast.For, ast.AsyncFor)):
+        return None
+    loop = ds[0].stmt
+    it, tgt = loop.iter, loop.target
+    while True:
+        if isinstance(it, ast.Call) and call_name(it) == "enumerate" and it.args and isinstance(tgt, (ast.Tuple, ast.List)) and len(tgt.elts) == 2:
+            if any(isinstance(x, ast.Name) and x.id == name for x in ast.walk(tgt.elts[0])):
+                return None  # the index, not an element
+            it, tgt = it.args[0], tgt.elts[1]
+            continue
+        if isinstance(it, ast.Call) and call_name(it) in ("reversed", "list", "tuple", "sorted", "iter") and len(it.args) == 1:
+            it = it.args[0]
+            continue
+        break
+    if not any(isinstance(x, ast.Name) and x.id == name for x in ast.walk(tgt)):
+        return None
+    return it
+
+
+def cmp_atom(e):
+    """canonical (left text, right text, negated) for an order comparison, as `left < right`:
+    a < b ; b > a ; not (a >= b) ; not (b <= a) all give ('a', 'b', False)"""
+    if not (isinstance(e, ast.Compare) and len(e.ops) == 1):
+        return None
+    l, op, r = unparse(e.left), e.ops[0], unparse(e.comparators[0])
+    if isinstance(op, ast.Lt):
+        return (l, r, False)
+    if isinstance(op, ast.Gt):
+        return (r, l, False)
+    if isinstance(op, ast.GtE):
+        return (l, r, True)
+    if isinstance(op, ast.LtE):
+        return (r, l, True)
+    return None
+
+
+def ev3(e, atoms):
+    """three-valued truth of a boolean expression under a partial assignment.
+    ``atoms``: callable expr -> True/False/None for the atoms it knows."""
+    v = atoms(e)
+    if v is not None:
+        return v
+    if isinstance(e, ast.UnaryOp) and isinstance(e.op, ast.Not):
+        x = ev3(e.operand, atoms)
+        return None if x is None else (not x)
+    if isinstance(e, ast.BoolOp):
+        vals = [ev3(x, atoms) for x in e.values]
+        if isinstance(e.op, ast.And):
+            if any(x is False for x in vals):
+                return False
+            return True if all(x is True for x in vals) else None
+        if any(x is True for x in vals):
+            return True
+        return False if all(x is False for x in vals) else None
+    if isinstance(e, ast.Constant):
+        return bool(e.value)
+    return None
+
+
 __all__ = [n for n in dir() if not n.startswith("_")]
